@@ -65,6 +65,31 @@ def incs_of(n, var='opIter'):
         x.get('ref', {}).get('name') == var for x in sub(s))]
 
 
+def zero_test_edge(cn, lid):
+    """which outcome (True/False) of condition cn means `variable lid is zero`; None if cn is not a zero test of it.
+    Idioms: x == 0, 0 == x, x != 0, 0 != x, !x, x (as a condition), x < 1 is not accepted"""
+    cn = strip(cn)
+    if cn is None:
+        return None
+    if cn['k'] == 'BinaryOperator' and cn.get('op') in ('==', '!='):
+        l, r = strip(cn['c'][0]), strip(cn['c'][1])
+        for a, b in ((l, r), (r, l)):
+            if a['k'] == 'DeclRefExpr' and a['ref'].get('lid') == lid and tab.const_of(b) == 0:
+                return cn['op'] == '=='
+        return None
+    if cn['k'] == 'UnaryOperator' and cn.get('op') == '!':
+        inner = zero_test_edge(cn['c'][0], lid)
+        if inner is not None:
+            return not inner
+        x = strip(cn['c'][0])
+        if x['k'] == 'DeclRefExpr' and x['ref'].get('lid') == lid:
+            return True
+        return None
+    if cn['k'] == 'DeclRefExpr' and cn['ref'].get('lid') == lid:
+        return False
+    return None
+
+
 def check_divisions(rep, fb, rule):
     """every integer / and % in PromelaDataModel::evaluateExpr is dominated by a zero test of its divisor that leaves the arm"""
     ev = fb.fn('uscxml::PromelaDataModel::evaluateExpr', params=['void *'])
@@ -81,11 +106,7 @@ def check_divisions(rep, fb, rule):
                 if c is None or c not in ev.nodes:
                     continue
                 cn = strip(ev.nodes[c])
-                zero_edge = None
-                if cn['k'] == 'BinaryOperator' and cn.get('op') in ('==', '!='):
-                    l, r = strip(cn['c'][0]), strip(cn['c'][1])
-                    if l['k'] == 'DeclRefExpr' and l['ref'].get('lid') == lid and tab.const_of(r) == 0:
-                        zero_edge = True if cn['op'] == '==' else False
+                zero_edge = zero_test_edge(cn, lid)
                 if zero_edge is None:
                     continue
                 succ = g.succ_labeled(bid)
